@@ -4,7 +4,7 @@ use super::*;
 
 // ------------------------------------------------------------------------------------------------ CBOR scanner
 #[derive(Clone, Debug)]
-pub struct Head { pub off: usize, pub major: u8, pub ai: u8, pub arg: u64, pub hlen: usize, pub end: usize, pub depth: usize, pub inner: bool }
+pub struct Head { pub off: usize, pub major: u8, pub ai: u8, pub arg: u64, pub hlen: usize, pub end: usize, pub depth: usize, pub inner: bool, pub map_value: bool }
 
 fn head_at(bs: &[u8], pos: usize) -> Option<(u8, u8, u64, usize)> {
     let b = *bs.get(pos)?;
@@ -19,11 +19,12 @@ fn head_at(bs: &[u8], pos: usize) -> Option<(u8, u8, u64, usize)> {
 }
 
 /// walks one well-formed item starting at `pos`; records every head; returns the end offset
-fn scan_item(bs: &[u8], pos: usize, depth: usize, base: usize, inner: bool, heads: &mut Vec<Head>) -> Option<usize> {
+fn scan_item(bs: &[u8], pos: usize, depth: usize, base: usize, inner: bool, heads: &mut Vec<Head>) -> Option<usize> { scan_item_r(bs, pos, depth, base, inner, false, heads) }
+fn scan_item_r(bs: &[u8], pos: usize, depth: usize, base: usize, inner: bool, map_value: bool, heads: &mut Vec<Head>) -> Option<usize> {
     if depth > 600 { return None; }
     let (m, ai, arg, hlen) = head_at(bs, pos)?;
     let idx = heads.len();
-    heads.push(Head { off: base + pos, major: m, ai, arg, hlen, end: 0, depth, inner });
+    heads.push(Head { off: base + pos, major: m, ai, arg, hlen, end: 0, depth, inner, map_value });
     let mut p = pos + hlen;
     let indef = ai == 31;
     match m {
@@ -31,7 +32,7 @@ fn scan_item(bs: &[u8], pos: usize, depth: usize, base: usize, inner: bool, head
         2 | 3 => {
             if indef {
                 loop { if *bs.get(p)? == 0xff { p += 1; break; } let (m2, ai2, n2, h2) = head_at(bs, p)?; if m2 != m || ai2 == 31 { return None; }
-                    heads.push(Head { off: base + p, major: m2, ai: ai2, arg: n2, hlen: h2, end: base + p + h2 + n2 as usize, depth: depth + 1, inner });
+                    heads.push(Head { off: base + p, major: m2, ai: ai2, arg: n2, hlen: h2, end: base + p + h2 + n2 as usize, depth: depth + 1, inner, map_value: false });
                     p = p.checked_add(h2)?.checked_add(n2 as usize)?; if p > bs.len() { return None; } }
             } else {
                 let e = p.checked_add(arg as usize)?; if e > bs.len() { return None; }
@@ -45,8 +46,8 @@ fn scan_item(bs: &[u8], pos: usize, depth: usize, base: usize, inner: bool, head
         }
         4 | 5 => {
             let per = if m == 5 { 2 } else { 1 };
-            if indef { loop { if *bs.get(p)? == 0xff { p += 1; break; } for _ in 0..per { p = scan_item(bs, p, depth + 1, base, inner, heads)?; } } }
-            else { if arg > bs.len() as u64 { return None; } for _ in 0..(arg as usize * per) { p = scan_item(bs, p, depth + 1, base, inner, heads)?; } }
+            if indef { loop { if *bs.get(p)? == 0xff { p += 1; break; } for k in 0..per { p = scan_item_r(bs, p, depth + 1, base, inner, m == 5 && k == 1, heads)?; } } }
+            else { if arg > bs.len() as u64 { return None; } for k in 0..(arg as usize * per) { p = scan_item_r(bs, p, depth + 1, base, inner, m == 5 && k % 2 == 1, heads)?; } }
         }
         6 => { if indef { return None; } p = scan_item(bs, p, depth + 1, base, inner, heads)?; }
         _ => { if indef { return None; } }
@@ -149,6 +150,20 @@ pub fn mutate_cbor(seed: &[u8], rng: &mut Rng, cap: usize, out: &mut Vec<(String
                     let mut w = seed[..o].to_vec(); w.extend(enc_min(5, h.arg)); w.extend_from_slice(&seed[ve..]); out.push(("drop-entry".into(), w)); } }
         }
         // nesting: wrap this item in k arrays / tags / maps (depth to 256 and beyond the recursion any reader tolerates cheaply)
+    }
+    // every field value of the outer map structures replaced by an empty collection / null (presence combinations the writers rarely see)
+    let mut nf = 0;
+    for h in heads.iter().filter(|h| h.map_value && h.depth <= 3 && !h.inner && h.end <= n) {
+        if nf >= 48 { break; } nf += 1;
+        for rep in [&[0x80u8][..], &[0xd9, 0x01, 0x02, 0x80], &[0xa0], &[0x9f, 0xff], &[0xd9, 0x01, 0x02, 0x9f, 0xff], &[0xbf, 0xff], &[0xf6]] { out.push(("empty-field".into(), splice(seed, h.off, h.end, rep))); }
+    }
+    // a map structure with one more field (every small key) holding an empty collection, and the one-field maps themselves
+    if heads[0].major == 5 && heads[0].ai != 31 && heads[0].end == n && n <= 400 {
+        let h = &heads[0];
+        for k in 0..=25u8 { for e in [&[0x80u8][..], &[0xd9, 0x01, 0x02, 0x80], &[0xa0], &[0x9f, 0xff], &[0xf6]] {
+            let mut v = enc_min(5, h.arg + 1); v.extend_from_slice(&seed[h.hlen..]); v.extend(enc_min(0, k as u64)); v.extend_from_slice(e); out.push(("add-field".into(), v));
+            if rng.chance(1, 4) { let mut w = vec![0xa1u8]; w.extend(enc_min(0, k as u64)); w.extend_from_slice(e); out.push(("one-field".into(), w)); }
+        } }
     }
     // byte substitutions anywhere
     for _ in 0..8 { let mut v = seed.to_vec(); let k = rng.below(n as u64) as usize; v[k] = rng.next() as u8; out.push(("subst".into(), v)); }
@@ -399,6 +414,21 @@ fn targeted(rng: &mut Rng, cases: &mut Vec<String>) {
             push(format!("fn b58 {} {} {}", thex(&base58_encode(&v)), hex_or_dash(&v), l));
             if k < 20 { let mut o = vec![0x82u8]; o.extend(bstr(&v)); o.push(0x01); push(format!("dec TransactionOutput {} emb-{}", hex_or_dash(&o), l)); }
         }
+    }
+    // Byron attributes: contents of the protocol-magic / derivation-path byte strings (crc-valid envelope)
+    for x in [&[][..], &[0x00], &[0x1a, 0x2d, 0x96, 0x4a, 0x09], &[0x1b, 0, 0, 0, 1, 0, 0, 0, 0], &[0x1b, 0xff, 0xff, 0xff, 0xff, 0xff, 0xff, 0xff, 0xff], &[0x3a, 0, 0, 0, 1], &[0x20], &[0x40], &[0x60], &[0x80], &[0xa0],
+              &[0xf6], &[0xff], &[0x1a, 0xff], &[0x18], &[0x1c], &[0x1f], &[0xc2, 0x41, 0x01], &[0x00, 0x00], &[0xfb, 0, 0, 0, 0, 0, 0, 0, 0]] {
+        for key in [1u8, 2, 0, 3, 0x18] {
+            let mut inner = vec![0x83u8]; inner.extend(bstr(&rng.bytes(28))); inner.extend([0xa1, key]); if key == 0x18 { inner.push(0x02); } inner.extend(bstr(x)); inner.push(0x00);
+            let v = byron_envelope(&inner);
+            push(format!("raw Address {} byron-attr", hex_or_dash(&v))); push(format!("dec ByronAddress {} byron-attr", hex_or_dash(&v)));
+            push(format!("fn b58 {} {} byron-attr", thex(&base58_encode(&v)), hex_or_dash(&v)));
+        }
+        // the attribute value is not a byte string at all / the map announces more entries than it has
+        let mut inner = vec![0x83u8]; inner.extend(bstr(&rng.bytes(28))); inner.extend([0xa1, 0x02]); inner.extend_from_slice(x); inner.push(0x00);
+        let v = byron_envelope(&inner); push(format!("dec ByronAddress {} byron-attr-raw", hex_or_dash(&v)));
+        let mut inner2 = vec![0x83u8]; inner2.extend(bstr(&rng.bytes(28))); inner2.extend([0xbb, 0xff, 0xff, 0xff, 0xff, 0xff, 0xff, 0xff, 0xff, 0x02]); inner2.extend(bstr(x)); inner2.push(0x00);
+        let v2 = byron_envelope(&inner2); push(format!("dec ByronAddress {} byron-attr-count", hex_or_dash(&v2)));
     }
     // legacy output, third element: every kind of item / truncation after [address, amount]
     let addr = { let mut v = vec![0x61u8]; v.extend(rng.bytes(28)); bstr(&v) };
